@@ -81,6 +81,8 @@ def run(tier, seed, deep, hints):
     keys += [random_key(rng) for _ in range(n)]
     findings, evals = [], 0
     for key in keys:
+        if core.search_expired():
+            break
         depth = rng.choice([1, 2, 3, 5, 8])
         evals += 1
         try:
